@@ -270,7 +270,7 @@ class Interp:
             return a >= b
         raise ValueError(op)
 
-    # layout: members aligned to min(size, 8); struct size rounded up to its alignment
+    # layout: primitives aligned to min(size, 8); structures and words to their widest member; size rounded up to the alignment
     def align_of(self, ty):
         k = ty[0]
         if k == "p":
@@ -278,7 +278,9 @@ class Interp:
         if k == "a":
             return self.align_of(ty[2])
         if k == "w":
-            return min(self.structs[ty[1]]["bits"] // 8, 8)
+            # a word is laid out like a structure of its members (measured: a word128 whose widest member is a u32 is
+            # 4-aligned), it only has to fill its declared size exactly
+            return max([self.align_of(mt) for _m, mt in self.structs[ty[1]]["members"]] or [1])
         if k == "s":
             return max([self.align_of(mt) for _m, mt in self.structs[ty[1]]["members"]] or [1])
         if k in ("ptr",):
